@@ -27,7 +27,7 @@ type nameSpace struct {
 
 func newNS() *nameSpace { return &nameSpace{map[string]bool{}, map[string]bool{}} }
 
-var scalarTypes = []string{"string", "string", "string", "int", "int", "int8", "uint8", "int64", "uint", "float64", "duration", "um", "bool", "tb"}
+var scalarTypes = []string{"string", "string", "string", "int", "int", "int8", "uint8", "int64", "uint", "float64", "duration", "um", "us", "bool", "tb"}
 var intBases = []int{0, 0, 0, 0, 16, 2, 36, 8}
 
 func isIntType(t string) bool {
@@ -109,7 +109,7 @@ func genOptRaw(r *rand.Rand, ns *nameSpace, nsPrefix string, allowReq bool) *Opt
 		o.VType = ""
 	default:
 		o.Kind = "func1"
-		o.VType = pick(r, []string{"string", "string", "int"})
+		o.VType = pick(r, []string{"string", "string", "int", "us", "um"})
 		if chance(r, 0.3) {
 			o.Param = pick(r, []string{"slice", "map", "ptr"}) // func([]T), func(map[string]T), func(*T)
 		}
@@ -255,9 +255,9 @@ func validValue(r *rand.Rand, o *OptNode) string {
 	vt := o.VType
 	var v string
 	switch {
-	case vt == "string" || vt == "um" || vt == "cc":
+	case vt == "string" || vt == "um" || vt == "us" || vt == "cc":
 		v = pick(r, stringVals[:10])
-		if vt == "um" && strings.HasPrefix(v, "!") {
+		if (vt == "um" || vt == "us") && strings.HasPrefix(v, "!") {
 			v = "u"
 		}
 	case vt == "int8":
@@ -325,7 +325,7 @@ func invalidValue(r *rand.Rand, o *OptNode) string {
 	switch {
 	case vt == "string":
 		return pick(r, oddStringVals)
-	case vt == "um":
+	case vt == "um" || vt == "us":
 		return "!no"
 	case vt == "tb":
 		return pick(r, []string{"true", "", "ON", "1"})
